@@ -28,6 +28,7 @@ type Thread struct {
 	isTimer  bool
 	noSched  int               // >0: inside an atomic region (no scheduling points)
 	yielding  bool
+	eagerParent *Thread // set while a freshly spawned thread runs to its first visible operation
 	pendW     *waiter  // blocked channel operation (its completion is part of the state)
 	pendSel   *selWait // blocked select
 	spawnFn   Value
@@ -233,6 +234,10 @@ func (st *State) schedPoint(what string) {
 	if len(st.threads) == 1 || st.cur.noSched > 0 {
 		return
 	}
+	if st.cur.eagerParent != nil {
+		st.reschedule(false)
+		return
+	}
 	live := 0
 	for _, t := range st.threads {
 		if !t.done {
@@ -272,8 +277,36 @@ func (st *State) block(cond func() bool, what string) {
 	t.waitWhat = ""
 }
 
+// handBack returns control to the spawner once a freshly spawned thread has
+// reached its first visible operation (or has exited): the code before a
+// goroutine's first synchronisation operation is local, so starting a
+// goroutine is not a scheduling decision.
+func (st *State) handBack(self *Thread) bool {
+	p := self.eagerParent
+	if p == nil {
+		return false
+	}
+	self.eagerParent = nil
+	st.cur = p
+	p.wake <- struct{}{}
+	if self.done {
+		return true
+	}
+	<-self.wake
+	if self.killed {
+		panic(threadKill{})
+	}
+	return true
+}
+
 func (st *State) reschedule(selfBlocked bool) {
 	self := st.cur
+	if self.eagerParent != nil {
+		// reached the first visible operation: give control back; when a real
+		// scheduling decision later picks this thread it simply continues
+		st.handBack(self)
+		return
+	}
 	if st.eng.visited != nil && st.pos >= len(st.prefix) && st.concrete == nil {
 		if selfBlocked && !self.done {
 			// the blocked thread's wait condition is part of its program point
@@ -375,6 +408,7 @@ func (st *State) goStmt(fr *frame, instr *ssa.Go, fn Value, args []Value) {
 		st.callFunc(nil, instr.Pos(), fn, args)
 	})
 	t.spawnFn, t.spawnArgs = fn, args
+	st.startEager(t)
 	st.schedPoint("go")
 }
 
@@ -392,6 +426,22 @@ func (st *State) spawn(name string, body func()) *Thread {
 	st.cur.vc[st.cur.id]++
 	st.startThread(t, body)
 	return t
+}
+
+// startEager runs the freshly spawned thread t up to its first visible
+// operation, then control comes back to the spawner.
+func (st *State) startEager(t *Thread) {
+	self := st.cur
+	if self.noSched > 0 {
+		return
+	}
+	t.eagerParent = self
+	st.cur = t
+	t.wake <- struct{}{}
+	<-self.wake
+	if self.killed {
+		panic(threadKill{})
+	}
 }
 
 // ---------- happens-before helpers (for the race check)
